@@ -39,23 +39,29 @@ META = {
 }
 
 KINDS = ["threaded", "pool", "oneshot", "forking"]
-BOUND = float(os.environ.get("VERIF_C17_BOUND", "2.0"))      # s: "promptly" / "eventually" for the oracle
-NEG_BOUND = 0.35                                              # s: how long "nothing happens" is watched
+# Every wait whose expiry is a verdict (a reply, end-of-stream, a table emptying, close() returning ...) uses BOUND: generous, so
+# that a loaded machine cannot produce a false violation; it costs nothing when the expected thing happens.  FAST replaces it
+# only after a failure has already been established (in the same history, or earlier in the run).  Starvation verdicts do not
+# rest on a timeout: they are confirmed on the server's thread stacks (History.starvation_cause).
+BOUND = float(os.environ.get("VERIF_C17_BOUND", "30.0"))
+FAST = float(os.environ.get("VERIF_C17_FAST", "2.0"))
+QUIET = 1.0                                                   # s: how long a reply that nobody expects is waited for
 H = R.H
 AUTH_OK, AUTH_FAIL, AUTH_STALL = 0, 1, 2
-QROOT, QBUMP, QMAKE, QSTR, QDEL, QCLOSE = range(6)
+QROOT, QBUMP, QMAKE, QSTR, QDEL, QCLOSE, QKILL = range(7)
 
 
 # ================================================================= facts from the translator
 
 def gen_facts(repo=None):
-    """(pool_close_drops, pool_fail_discards, fork_parent_keeps) re-translated from the tree under test"""
+    """(pool_close_drops, pool_fail_discards, fork_parent_keeps, pool_catches_base) re-translated from the tree under test"""
     from tools.pygen import server as T
     vals = {}
     for it in T.translate(repo or C.REPO):
         if it.kind == "typed" and it.coq_type == "bool":
             vals[it.name] = it.coq_term == "true"
-    return [int(vals.get("pool_close_drops", False)), int(vals.get("pool_fail_discards", False)), int(vals.get("fork_parent_keeps", False))]
+    return [int(vals.get("pool_close_drops", False)), int(vals.get("pool_fail_discards", False)), int(vals.get("fork_parent_keeps", False)),
+            int(vals.get("pool_catches_base", False))]
 
 
 # ================================================================= histories -> model scripts
@@ -74,10 +80,11 @@ def frame_raw(body, flag):
 
 
 def model_case(cfg, facts, items):
-    """-> (case for the extracted model, index of the snapshot of each item)"""
+    """-> (case for the extracted model, index of the snapshot of each item, index of the intermediate snapshot of a two-phase leave)"""
     kd = KINDS.index(cfg["kind"])
-    dtbl, ztbl, script, snap = {}, {}, [], []
+    dtbl, ztbl, script, snap, pre = {}, {}, [], [], {}
     hups = []
+    ckind = {}
     unix = cfg["transport"] == "unix"
 
     def good_frame(q, target, compressed=False):
@@ -93,17 +100,27 @@ def model_case(cfg, facts, items):
         op = it[0]
         if op == "connect":
             script.append([0, [0, it[1], it[3]]])
+            ckind[it[1]] = it[2]
         elif op == "req":
             script.append([0, [1, it[1], good_frame(it[2], it[3], bool(it[4]) if len(it) > 4 else False)]])
         elif op == "send":
             script.append([0, [1, it[1], bytes.fromhex(it[2])]])
+        elif op == "kill":
+            dtbl[b"KILL"] = [QKILL]
+            script.append([0, [1, it[1], frame_raw(b"KILL", 0)]])
         elif op == "call":
             pass
         elif op == "leave":
             c, mode = it[1], it[2]
             if mode == "close":
                 script.append([0, [1, c, good_frame(QCLOSE, None)]])
-            script.append([0, [2, c, 1 if mode == "rst" else 0]])
+                if ckind.get(c) == "raw":
+                    # a raw client sends HANDLE_CLOSE, lets the server's threads settle, then closes its socket (two observable phases:
+                    # otherwise the poller may or may not see the data before the hang-up)
+                    script.append([1, list(hups)])
+                    pre[len(snap)] = len(script) - 1
+            # a unix socket has no reset: what the client had sent stays readable, then end-of-stream (and the poller sees a hang-up)
+            script.append([0, [2, c, 1 if (mode == "rst" and not unix) else 0]])
             if mode == "rst" or unix:
                 hups.append(c)
         elif op == "srvclose":
@@ -112,9 +129,9 @@ def model_case(cfg, facts, items):
             raise ValueError(op)
         script.append([1, list(hups)])
         snap.append(len(script) - 1)
-    case = [[kd, facts[0], facts[1], facts[2], int(cfg["auth"]), int(cfg["cls"]), cfg["nw"], cfg["batch"]],
+    case = [[kd, facts[0], facts[1], facts[2], facts[3], int(cfg["auth"]), int(cfg["cls"]), cfg["nw"], cfg["batch"]],
             [[k, v] for k, v in dtbl.items()], [[k, v] for k, v in ztbl.items()], script]
-    return case, snap
+    return case, snap, pre
 
 
 def project(state):
@@ -124,7 +141,7 @@ def project(state):
          "pollset": sorted(pollset), "queue": sorted(queue), "held": sorted(w[0] for w in workers if w), "conn": {}}
     for c, stage, authd, gone, shut, cclosed, hooks, table, out, inlen in conns:
         d["conn"][str(c)] = {"authd": bool(authd), "hooks": hooks, "cclosed": bool(cclosed), "shut": bool(shut), "gone": bool(gone),
-                             "stage": stage, "out": out, "ntable": len(table)}
+                             "stage": stage, "out": out, "ntable": len(table), "inlen": inlen}
     return d
 
 
@@ -336,6 +353,7 @@ class Client:
         """-> decoded (kind, seq, args) | 'eof' | 'timeout'"""
         t0 = time.monotonic()
         while True:
+            self.pump()
             u = None
             try:
                 u = R.unframe(bytes(self.buf))
@@ -350,10 +368,9 @@ class Client:
                     return "garbled"
             if self.eof:
                 return "eof"
-            if time.monotonic() - t0 > bound:
+            if time.monotonic() - t0 >= bound:
                 return "timeout"
-            self.pump()
-            if not self.eof and not _unframe_ready(self.buf):
+            if not _unframe_ready(self.buf):
                 time.sleep(0.002)
 
 
@@ -390,6 +407,8 @@ class History:
         self.tainted = False
         self.addr_cid = {}
         self.nsock = 0
+        self.sent = {}
+        self.fast = bool(job.get("fast"))
 
     # ------------------------------------------------------------ set-up / tear-down
     def start(self):
@@ -440,10 +459,10 @@ class History:
         try:
             t = threading.Thread(target=self.srv.close, daemon=True)
             t.start()
-            t.join(BOUND + 2)
+            t.join(FAST + 2)
         except Exception:
             pass
-        self.thread.join(BOUND)
+        self.thread.join(FAST)
         if self.tmp:
             shutil.rmtree(self.tmp, ignore_errors=True)
 
@@ -455,6 +474,9 @@ class History:
             pass
         cl.sock = None
         cl.gone = True
+
+    def B(self):
+        return FAST if (self.fast or self.tainted) else BOUND
 
     # ------------------------------------------------------------ observation
     def attribute(self, cid=None):
@@ -486,10 +508,10 @@ class History:
         d["clients"] = sorted(cl)
         d["clients_closed_socks"] = sum(1 for s in list(srv.clients) if s.fileno() == -1)
         fdmap, pollset, queue = [], [], []
+        fd_cid = {}
         d["stale"] = []
         if self.cfg["kind"] == "pool":
             f2c = dict(srv.fd_to_conn)
-            fd_cid = {}
             for fd, conn in f2c.items():
                 self.fd_seen.add(fd)
                 c = self.key_cid.get(getattr(conn, "_verif_key", None), -1)
@@ -529,6 +551,20 @@ class History:
                 e["cclosed"] = False
             e["shut"] = None if (c.gone or c.sock is None) else bool(c.sees_eof())
             d["conn"][str(cid)] = e
+        # bytes the server has not read yet, per client (so that "the server has consumed what was sent" is observable)
+        import fcntl, termios
+        unread = {}
+        try:
+            for sk, c in list(self.sock_cid.items()):
+                fd = sk.fileno()
+                if fd != -1:
+                    unread[str(c)] = struct.unpack("i", fcntl.ioctl(fd, termios.FIONREAD, b"\0\0\0\0"))[0]
+            if self.cfg["kind"] == "pool":
+                for fd, c in fd_cid.items():
+                    unread[str(c)] = struct.unpack("i", fcntl.ioctl(fd, termios.FIONREAD, b"\0\0\0\0"))[0]
+        except (OSError, ValueError):
+            pass
+        d["unread"] = unread
         d["fds"] = nfds() - self.base_fds
         d["threads"] = threading.active_count() - self.base_threads
         return d
@@ -555,6 +591,8 @@ class History:
                 diffs.append(("conn.cclosed", cid, o["cclosed"], e["cclosed"]))
             if o["shut"] is not None and o["shut"] != e["shut"]:
                 diffs.append(("conn.shut", cid, o["shut"], e["shut"]))
+            if e.get("inlen") == 0 and not e["shut"] and not e["gone"] and obs["unread"].get(cid, 0) != 0:
+                diffs.append(("conn.unread", cid, obs["unread"].get(cid), 0))
         for cid, o in obs["conn"].items():
             if cid not in exp["conn"] and (o["authd"] or o["hooks"]):
                 diffs.append(("conn-unexpected", cid, o))
@@ -577,9 +615,10 @@ class History:
             # no model: let the server's threads work for a moment
             wait_until(ok, 0.3)
         else:
-            wait_until(ok, BOUND)
+            wait_until(ok, self.B())
             if last[1]:
                 self.mismatch.append({"item": idx, "diffs": [list(map(repr, x)) for x in last[1][:6]]})
+                self.fast = True        # a difference has been established: the rest of this history need not wait long
         self.obs.append(last[0])
         return last[0]
 
@@ -587,10 +626,14 @@ class History:
     def violation(self, sig, idx, observed, expected, what):
         if self.tainted:
             return
+        self.nviol = getattr(self, "nviol", 0) + 1
+        self.fast = True
+        if self.nviol >= 2:
+            self.tainted = True      # a history has told its story after two violations: do not keep waiting for more
         self.oracle.append({"sig": sig, "item": idx, "observed": observed, "expected": expected, "what": what})
 
-    def eventually(self, pred, bound=BOUND, gc_retry=True):
-        v = wait_until(pred, bound)
+    def eventually(self, pred, bound=None, gc_retry=True):
+        v = wait_until(pred, self.B() if bound is None else bound)
         if not v and gc_retry:
             import gc
             gc.collect()
@@ -604,8 +647,10 @@ class History:
 
     def check_residue(self, idx):
         """no sockets, descriptors or table entries for departed clients (evaluated when the server's threads have settled)"""
-        if self.tainted:
-            return
+        if self.tainted or self.job.get("probe") == "c16":
+            return          # C16's runs check C16's statement only
+        if self.workers_all_blocked():
+            return          # no worker is free (C16's finding F7; c17_no_residue carries the same guard)
         kind = self.cfg["kind"]
         srv = self.srv
         departed = set(c.cid for c in self.clients.values() if c.gone)
@@ -617,11 +662,14 @@ class History:
                 if c in departed or c == -1:
                     bad.append(("clients", c))
             for k in ("fdmap", "pollset", "queue"):
+                if k == "queue" and srv._closed:
+                    continue        # the queue of a closed pool is dead storage (numbers, no sockets); c17_no_residue_closed has the same scope
                 for c in o[k]:
                     if c in departed or c == -1:
                         bad.append((k, c))
             for x in o["stale"]:
-                bad.append(tuple(x))
+                if not (x[0] == "queue" and srv._closed):
+                    bad.append(tuple(x))
             return bad
         bad = None
 
@@ -668,7 +716,11 @@ class History:
 
     def check_close(self, idx, first):
         """close(): listener stopped, every connected client sees end-of-stream promptly, hooks ran once, nothing left; twice is harmless"""
-        if self.tainted:
+        if self.tainted or self.job.get("probe") == "c16":
+            if not self.tainted:
+                t = threading.Thread(target=self.srv.close, daemon=True)
+                t.start()
+                t.join(self.B())
             return
         kind = self.cfg["kind"]
         srv = self.srv
@@ -685,7 +737,7 @@ class History:
                 res["exc"] = repr(e)
         t = threading.Thread(target=run, daemon=True)
         t.start()
-        t.join(BOUND)
+        t.join(self.B())
         hung = t.is_alive()
         if hung:
             self.close_returned = False
@@ -694,7 +746,7 @@ class History:
                            what="Server.close() raised" if first else "a second Server.close() raised")
         if not first:
             if hung:
-                self.violation("close-does-not-return:%s:second" % kind, idx, observed="still running after %.1fs" % BOUND, expected="returns", what="a second close() does not return")
+                self.violation("close-does-not-return:%s:second" % kind, idx, observed="still running after %.1fs" % self.B(), expected="returns", what="a second close() does not return")
                 return
             after = self.observe()
             keys = ("active", "closed", "lopen", "clients", "fdmap", "fds")
@@ -731,7 +783,7 @@ class History:
                     got = type(e).__name__
                 if got != "EOFError":
                     left.append((c.cid, got))
-            elif not wait_until(c.sees_eof, BOUND if not left else 0.2):
+            elif not wait_until(c.sees_eof, self.B() if not left else 0.2):
                 left.append((c.cid, "no end-of-stream"))
         if left:
             self.violation("close-leaves-client-connected:%s" % kind, idx, observed=left + (["close() itself did not return"] if hung else []),
@@ -740,7 +792,7 @@ class History:
             self.tainted = True       # everything else that is wrong from here on follows from this
             return
         if hung:
-            self.violation("close-does-not-return:%s" % kind, idx, observed="close() still running after %.1fs" % BOUND, expected="returns",
+            self.violation("close-does-not-return:%s" % kind, idx, observed="close() still running after %.1fs" % self.B(), expected="returns",
                            what="Server.close() does not return")
             self.tainted = True
             return
@@ -799,6 +851,7 @@ class History:
             self.settle(idx)
             return
         cl.sock, cl.connected = s, True
+        cl.auth = auth if self.cfg["auth"] else AUTH_OK
         self.addr_cid[norm_addr(s.getsockname())] = cid
         if self.cfg["auth"] and auth != AUTH_STALL:
             try:
@@ -808,10 +861,18 @@ class History:
         if ckind == "rpyc":
             import rpyc
             from rpyc.core.stream import SocketStream
-            cl.conn = rpyc.connect_stream(SocketStream(s), config={"sync_request_timeout": BOUND})
-        self.replies.append(["connected"])
+            cl.conn = rpyc.connect_stream(SocketStream(s), config={"sync_request_timeout": self.B()})
         self.settle(idx, cid)
         self.attribute(cid)
+        wb = (self.job.get("wb") or [False] * len(self.items))[idx]
+        cause = None
+        if wb and not cl.accepted:
+            # a well-behaved client must be accepted: the server gets the full bound, unless its stacks show why it cannot
+            def acc():
+                self.attribute(cid)
+                return cl.accepted
+            _, cause = self.await_good(acc, True)
+        self.replies.append(["connected", bool(cl.accepted), cause])
 
     def real_oid(self, target):
         t = tuple(target)
@@ -909,24 +970,118 @@ class History:
                 cl.sock.sendall(self.request_bytes(cl, q, target, compressed))
             except OSError:
                 got = ["eof"]
+        cause = None
         if got is None:
-            while True:
-                m = cl.next_message(BOUND)
-                if isinstance(m, tuple) and len(m) == 3 and (m[0] == R.MSG_REQUEST or m[1] != cl.seq):
-                    continue        # the server's own HANDLE_CLOSE, or a reply to an earlier request nobody waited for
-                break
-            got = self.canon_reply(cid, m, want)
-        self.replies.append({"got": got, "ref": want})
+            wb = (self.job.get("wb") or [False] * len(self.items))[idx]
+            exp = (self.job.get("expect_reply") or [True] * len(self.items))[idx]
+            box = []
+
+            def answered():
+                while True:
+                    m = cl.next_message(0)
+                    if m == "timeout":
+                        return False
+                    if isinstance(m, tuple) and len(m) == 3 and (m[0] == R.MSG_REQUEST or m[1] != cl.seq):
+                        continue    # the server's own HANDLE_CLOSE, or a reply to an earlier request nobody waited for
+                    box.append(m)
+                    return True
+            ok, cause = self.await_good(answered, wb or exp)
+            got = self.canon_reply(cid, box[0], want) if ok else ["timeout"]
+        self.replies.append({"got": got, "ref": want, "cause": cause})
         self.settle(idx)
+
+    def workers_all_blocked(self):
+        """thread pool: at least nbThreads connected clients have sent an unfinished frame (each occupies a worker for good)"""
+        if self.cfg["kind"] != "pool":
+            return False
+        n = sum(1 for c, b in self.sent.items() if c in self.clients and not self.clients[c].gone and pending_incomplete(b))
+        return n >= self.cfg["nw"]
+
+    def starvation_cause(self):
+        """why a well-behaved client of a running thread pool is not being served, read off the server's thread stacks:
+        every worker sits in SocketStream.read for a client that sent an unfinished frame, or the accept loop sits in the
+        authenticator for a client that has not sent its credentials"""
+        if self.cfg["kind"] != "pool" or self.closed_called:
+            return None
+        frames = sys._current_frames()
+
+        def inside(t, fname, cname):
+            f = frames.get(t.ident)
+            while f is not None:
+                if f.f_code.co_name == cname and f.f_code.co_filename.endswith(fname):
+                    return True
+                f = f.f_back
+            return False
+        stalled = [c for c in self.clients.values() if c.connected and not c.gone and getattr(c, "auth", AUTH_OK) == AUTH_STALL]
+        if self.cfg["auth"] and stalled and inside(self.thread, "C17.py", "toy_authenticator"):
+            return "accept-loop-blocked-by-pending-authentication"
+        if self.workers_all_blocked() and all(inside(t, os.path.join("core", "stream.py"), "read") for t in self.srv.workers):
+            return "workers-blocked-in-unfinished-reads"
+        return None
+
+    def await_good(self, done, expected):
+        """wait until done() is true.  expected: the property / the model says it will happen -> generous bound; otherwise a short
+        one.  Returns (value of done(), confirmed cause of starvation or None): the cause must show on three looks 0.2 s apart"""
+        t0 = time.monotonic()
+        limit = self.B() if expected else QUIET
+        streak, last, tlook = 0, None, 0.0
+        while True:
+            v = done()
+            if v:
+                return v, None
+            now = time.monotonic()
+            if now - tlook >= 0.2:
+                tlook = now
+                cause = self.starvation_cause()
+                streak = streak + 1 if (cause is not None and cause == last) else (1 if cause is not None else 0)
+                last = cause
+                if streak >= 3:
+                    return v, cause
+            if now - t0 > limit:
+                return v, None
+            time.sleep(0.005)
 
     def do_send(self, idx, cid, data):
         cl = self.clients[cid]
+        self.sent[cid] = self.sent.get(cid, b"") + data
         if cl.sock is not None:
             try:
                 cl.sock.sendall(data)
             except OSError:
                 pass
         self.replies.append(None)
+        self.settle(idx)
+
+    def do_kill(self, idx, cid):
+        """the client makes the server ask IT something (unsolicited reply carrying a remote reference -> the server's nested
+        HANDLE_INSPECT request) and answers with an exception record for SystemExit"""
+        cl = self.clients[cid]
+        got = "no-request"
+        if cl.sock is not None:
+            try:
+                cl.sock.sendall(R.frame(R.msg(R.MSG_REPLY, 7000 + idx, (R.LABEL_REMOTE_REF, ("verif.Evil", 4242, 1000000 + idx))), False))
+                box = []
+
+                def asked():
+                    while True:
+                        m = cl.next_message(0)
+                        if m == "timeout":
+                            return False
+                        if isinstance(m, tuple) and len(m) == 3 and m[0] == R.MSG_REQUEST and m[2][0] == H["INSPECT"]:
+                            box.append(m)
+                            return True
+                        if m in ("eof", "garbled"):
+                            box.append(m)
+                            return True
+                ok, cause = self.await_good(asked, True)
+                if ok and isinstance(box[0], tuple):
+                    got = "asked"
+                    cl.sock.sendall(R.frame(R.msg(R.MSG_EXCEPTION, box[0][1], (("builtins", "SystemExit"), (), (), "tb")), False))
+                elif ok:
+                    got = box[0]
+            except OSError:
+                got = "eof"
+        self.replies.append(["kill", got])
         self.settle(idx)
 
     def do_call(self, idx, cid, n):
@@ -956,6 +1111,14 @@ class History:
                             cl.sock.sendall(self.request_bytes(cl, QCLOSE, None))
                         except OSError:
                             pass
+                        exp_pre = (self.job.get("expect_pre") or {}).get(str(idx))
+                        if exp_pre is not None:
+                            def reached():
+                                self.attribute()
+                                return not self.matches(self.observe(), exp_pre)
+                            wait_until(reached, self.B())
+                        else:
+                            time.sleep(0.3)
                         cl.sock.close()
                 else:
                     cl.sock.close()
@@ -971,7 +1134,24 @@ class History:
         cl.gone = True
         self.replies.append(None)
         self.settle(idx)
+        self.check_oneshot(idx, cl)
         self.check_residue(idx)
+
+    def check_oneshot(self, idx, cl):
+        """a one-shot server serves exactly one connection and then shuts itself down"""
+        if self.cfg["kind"] != "oneshot" or self.tainted or self.job.get("probe") == "c16":
+            return
+        with self.rec.lock:
+            n = len(self.rec.connects)
+        if n > 1:
+            self.violation("oneshot-served-second-connection", idx, observed=n, expected="at most 1", what="a one-shot server set up more than one connection")
+        if cl.accepted:
+            def down():
+                return self.srv._closed and not self.srv.active and self.srv.listener.fileno() == -1 and not self.thread.is_alive()
+            if not self.eventually(down, gc_retry=False):
+                self.violation("oneshot-not-closed-after-its-client-left", idx, observed=[self.srv._closed, self.srv.active, self.thread.is_alive()],
+                               expected=[True, False, False], what="a one-shot server did not shut itself down after serving its one connection")
+                self.tainted = True
 
     def do_srvclose(self, idx):
         first = not self.closed_called
@@ -996,15 +1176,30 @@ class History:
                     self.do_send(idx, it[1], bytes.fromhex(it[2]))
                 elif op == "call":
                     self.do_call(idx, it[1], it[2])
+                elif op == "kill":
+                    self.do_kill(idx, it[1])
                 elif op == "leave":
                     self.do_leave(idx, it[1], it[2])
                 elif op == "srvclose":
                     self.do_srvclose(idx)
                 self.extra_checks(idx, it)
+                if self.failed_good_client(idx) or (self.tainted and self.job.get("probe") == "c16"):
+                    break       # the rest of the history would only wait for the same missing answers
         finally:
             self.stop()
         return {"id": self.job.get("id"), "obs": self.obs, "replies": self.replies, "oracle": self.oracle, "mismatch": self.mismatch,
                 "stats": self.stats, "thread_errors": self.rec.thread_errors}
+
+    def failed_good_client(self, idx):
+        wb = (self.job.get("wb") or [False] * len(self.items))[idx]
+        rep = self.replies[idx] if idx < len(self.replies) else None
+        if not wb or rep is None:
+            return False
+        if isinstance(rep, dict):
+            return rep["got"] != rep["ref"]
+        if isinstance(rep, list) and rep and rep[0] == "connected":
+            return not rep[1]
+        return False
 
     def extra_checks(self, idx, it):
         """hook for C16 (liveness of the accept loop and of well-behaved clients after every hostile event)"""
@@ -1019,7 +1214,10 @@ PROBES = {}
 
 
 def run_job(job):
-    return History(job).run()
+    t0 = time.monotonic()
+    res = History(job).run()
+    res["wall"] = round(time.monotonic() - t0, 2)
+    return res
 
 
 def worker_main():
@@ -1060,10 +1258,13 @@ class Farm:
         self.procs = [subprocess.Popen([sys.executable, "-c", "from harness import C17; C17.worker_main()"], stdin=subprocess.PIPE,
                                        stdout=subprocess.PIPE, stderr=self.errlog, env=env, cwd=C.VERIF) for _ in range(n)]
 
-    def map(self, jobs):
+    def map(self, jobs, is_failure=None):
+        """is_failure(job, result): once a failure has been established the remaining histories use the short bound"""
         results = [None] * len(jobs)
         lock = threading.Lock()
         nxt = [0]
+        fast = [False]
+        nfail = [0]
 
         def feed(p):
             while True:
@@ -1072,11 +1273,19 @@ class Farm:
                     nxt[0] += 1
                 if i >= len(jobs):
                     return
+                if nfail[0] >= 12:
+                    results[i] = {"skipped": True}      # the failure is established many times over: do not spend minutes on more of it
+                    continue
                 try:
+                    if fast[0]:
+                        jobs[i]["fast"] = True
                     p.stdin.write((json.dumps(jobs[i]) + "\n").encode())
                     p.stdin.flush()
                     line = p.stdout.readline()
                     results[i] = json.loads(line) if line else {"crash": "helper process died"}
+                    if is_failure is not None and is_failure(jobs[i], results[i]):
+                        fast[0] = True
+                        nfail[0] += 1
                 except Exception as e:
                     results[i] = {"crash": "helper: %r" % (e,)}
                     return
@@ -1141,6 +1350,7 @@ def run_forking_job(job):
     import tempfile, shutil, socket, signal
     import rpyc
     from rpyc.core.stream import SocketStream
+    B = FAST if job.get("fast") else BOUND
     tmp = tempfile.mkdtemp(prefix="c17f-")
     hookfile = os.path.join(tmp, "hooks")
     open(hookfile, "w").close()
@@ -1148,6 +1358,7 @@ def run_forking_job(job):
     p = subprocess.Popen([sys.executable, "-c", src], stdout=subprocess.PIPE, stderr=subprocess.DEVNULL, start_new_session=True)
     oracle, log = [], []
     conns = {}
+    raws = []
     try:
         info = json.loads(p.stdout.readline())
         port = info["port"]
@@ -1161,7 +1372,7 @@ def run_forking_job(job):
                 try:
                     s = socket.create_connection(("127.0.0.1", port), timeout=2)
                     s.settimeout(None)
-                    conns[it[1]] = rpyc.connect_stream(SocketStream(s), config={"sync_request_timeout": BOUND})
+                    conns[it[1]] = rpyc.connect_stream(SocketStream(s), config={"sync_request_timeout": B})
                     n0 = sum(1 for l in hooks() if l.startswith("c "))
                     log.append("connected")
                 except OSError:
@@ -1173,6 +1384,36 @@ def run_forking_job(job):
                     log.append("EOFError")
                 except Exception as e:
                     log.append(type(e).__name__)
+                if not closed and log[-1] != it[2]:
+                    oracle.append({"sig": "good-client-unanswered:forking", "item": idx, "observed": log[-1], "expected": it[2],
+                                   "what": "a well-behaved client of the forking server is not answered"})
+            elif op == "hostile":
+                # a raw client sends hostile bytes (and stays, closes, or resets); then a fresh well-behaved client must be served
+                try:
+                    hs = socket.create_connection(("127.0.0.1", port), timeout=2)
+                    hs.sendall(bytes.fromhex(it[2]))
+                    if it[3] == "rst":
+                        hs.setsockopt(socket.SOL_SOCKET, socket.SO_LINGER, struct.pack("ii", 1, 0))
+                    if it[3] in ("fin", "rst"):
+                        hs.close()
+                    else:
+                        raws.append(hs)
+                    log.append("sent")
+                except OSError:
+                    log.append("refused")
+                if not closed:
+                    got = None
+                    try:
+                        ps = socket.create_connection(("127.0.0.1", port), timeout=2)
+                        ps.settimeout(None)
+                        pc = rpyc.connect_stream(SocketStream(ps), config={"sync_request_timeout": B})
+                        got = pc.root.echo(4711)
+                        pc.close()
+                    except Exception as e:
+                        got = type(e).__name__
+                    if got != 4711:
+                        oracle.append({"sig": "good-client-unanswered:forking", "item": idx, "observed": got, "expected": 4711,
+                                       "what": "after a hostile client, a fresh well-behaved client of the forking server is not served"})
             elif op == "leave":
                 c = conns.pop(it[1], None)
                 if c is not None:
@@ -1180,7 +1421,7 @@ def run_forking_job(job):
                 log.append("left")
             elif op == "srvclose":
                 os.kill(info["pid"], signal.SIGUSR1)
-                ok = wait_until(lambda: any(l.startswith("closed ") for l in hooks()), BOUND)
+                ok = wait_until(lambda: any(l.startswith("closed ") for l in hooks()), B)
                 closed = True
                 log.append("closed" if ok else "close-not-finished")
                 if not ok:
@@ -1202,18 +1443,18 @@ def run_forking_job(job):
                 else:
                     nd = lambda: sum(1 for l in hooks() if l.startswith("d "))
                     nc = sum(1 for l in hooks() if l.startswith("c "))
-                    if not wait_until(lambda: nd() == nc, BOUND):
+                    if not wait_until(lambda: nd() == nc, B):
                         oracle.append({"sig": "hook-count:forking:after-close", "item": idx, "observed": [nc, nd()], "expected": "equal",
                                        "what": "on_disconnect did not run once per served connection after close()"})
         # departed clients: their child ran the hook once and ended
         ndep = sum(1 for x in log if x == "left")
-        if not closed:
+        if not closed and not any(it[0] == "hostile" for it in job["items"]):
             nd = lambda: sum(1 for l in hooks() if l.startswith("d "))
-            if not wait_until(lambda: nd() == ndep, BOUND):
+            if not wait_until(lambda: nd() == ndep, B):
                 oracle.append({"sig": "hook-count:forking:departed", "item": len(job["items"]), "observed": [ndep, nd()], "expected": "equal",
                                "what": "on_disconnect did not run once for every departed client"})
     finally:
-        for c in conns.values():
+        for c in list(conns.values()) + raws:
             try:
                 c.close()
             except Exception:
@@ -1344,6 +1585,8 @@ class Gen:
 
     def leave(self, c, mode=None):
         mode = mode or self.r.choice(["fin", "close", "rst"])
+        if mode == "close" and self.alive[c]["ckind"] == "rpyc" and any(it[0] == "send" for it in self.items):
+            mode = "fin"     # conn.close() sends HANDLE_CLOSE and hangs up at once: with workers possibly blocked the poller's view of that is a race
         self.items.append(["leave", c, mode])
         self.alive.pop(c)
         if self.busy == c:
@@ -1385,7 +1628,7 @@ def gen_history(r, quick=True, kinds=("threaded", "pool", "oneshot"), hostile=0.
             g.connect()
         elif x < 0.25 + hostile and g.alive:
             c = r.choice(list(g.alive))
-            if g.alive[c]["ckind"] == "raw":
+            if g.alive[c]["ckind"] == "raw" and (not cfg["auth"] or g.alive[c]["auth"] == AUTH_OK):
                 label, b = hostile_bytes(r)
                 g.items.append(["send", c, b.hex()])
                 if label in ("truncated", "absurd-length", "short", "random"):
@@ -1477,17 +1720,65 @@ def nontrivial(cfg, items):
     return n_conn >= 1 and ops.count("leave") >= 1 and len(items) >= 3
 
 
-def evaluate(ctx, label, batch, model, facts, farm, probe=None):
+def pending_incomplete(data):
+    """bytes a client sent -> True when they end inside a frame (a reader of that connection blocks)"""
+    buf = bytes(data)
+    while True:
+        if not buf:
+            return False
+        if len(buf) < 5:
+            return True
+        n, flag = struct.unpack(">IB", buf[:5])
+        if len(buf) < 5 + n + 1:
+            return True
+        buf = buf[5 + n + 1:]
+
+
+def well_behaved(cfg, items, j):
+    """is the client of item j a well-behaved client of a running server at that point (by the history alone)?
+    authenticated, speaks only well-formed requests, the server was not closed, and (one-shot) it is the first client"""
+    it = items[j]
+    if it[0] not in ("connect", "req", "call"):
+        return False
+    c = it[1]
+    first = None
+    seen_connect = it[0] == "connect"
+    for k in range(j):
+        o = items[k]
+        if o[0] == "srvclose":
+            return False
+        if o[0] == "connect" and first is None:
+            first = o[1]
+        if o[0] == "connect" and o[1] == c:
+            seen_connect = True
+            if cfg["auth"] and o[3] != AUTH_OK:
+                return False
+        if o[0] in ("send", "kill") and o[1] == c:
+            return False
+        if o[0] == "leave" and o[1] == c:
+            return False
+    if it[0] == "connect":
+        if cfg["auth"] and it[3] != AUTH_OK:
+            return False
+        if first is None:
+            first = c
+    if cfg["kind"] == "oneshot" and first != c:
+        return False
+    return seen_connect
+
+
+def evaluate(ctx, label, batch, model, facts, farm, probe=None, nontrivial_fn=None):
     """batch: list of (cfg, items).  Runs the model, the real servers, compares, reports."""
     jobs, cases, snaps = [], [], []
     for i, (cfg, items) in enumerate(batch):
-        job = {"id": i, "cfg": cfg, "items": items}
+        job = {"id": i, "cfg": cfg, "items": items, "wb": [probe == "c16" and well_behaved(cfg, items, j) for j in range(len(items))]}
         if probe:
             job["probe"] = probe
         if cfg["kind"] != "forking":
-            case, snap = model_case(cfg, facts, items)
+            case, snap, pre = model_case(cfg, facts, items)
             cases.append(case)
             snaps.append(snap)
+            job["_pre"] = pre
         else:
             cases.append(None)
             snaps.append(None)
@@ -1501,32 +1792,76 @@ def evaluate(ctx, label, batch, model, facts, farm, probe=None):
     for i, job in enumerate(jobs):
         if mouts[i] is not None:
             exp = []
+            starved = False
             for s in snaps[i]:
                 q, st = mouts[i][s]
-                exp.append(project(st) if q else None)
+                exp.append(project(st) if (q and not starved) else None)
+                if q and st[0] and st[7]:
+                    # quiescent with a non-empty active queue: every worker is stuck.  From here on the order in which freed
+                    # workers pick queued connections depends on thread timing; the model follows one order only -> stop comparing
+                    starved = True
             job["expect"] = exp
-    results = farm.map(jobs)
+            job["_compared"] = sum(1 for e in exp if e is not None)
+            job["expect_pre"] = {}
+            for k, si in job["_pre"].items():
+                q, st = mouts[i][si]
+                if q:
+                    job["expect_pre"][str(k)] = project(st)
+            job["expect_reply"] = [items_j[0] != "req" or reply_expected(mouts[i], snaps[i], j, items_j) is not None
+                                   for j, items_j in enumerate(job["items"])]
+    known = set(k.get("signature") for k in ctx.known if k.get("status") == "known")
+
+    def is_failure(job, res):
+        if res is None or "crash" in res or res.get("mismatch"):
+            return True
+        if any(v["sig"] not in known for v in res.get("oracle", [])):
+            return True
+        for j, rep in enumerate(res.get("replies", [])):
+            if job["wb"][j] and isinstance(rep, dict) and rep["got"] != rep["ref"] and not rep.get("cause"):
+                return True
+            if job["wb"][j] and isinstance(rep, list) and rep and rep[0] == "connected" and not rep[1] and not (len(rep) > 2 and rep[2]):
+                return True
+        return False
+    compared = [job.pop("_compared", len(job["items"])) for job in jobs]
+    for job in jobs:
+        job.pop("_pre", None)
+    results = farm.map(jobs, is_failure)
     for i, ((cfg, items), res) in enumerate(zip(batch, results)):
         case = {"cfg": cfg, "items": items, "probe": probe}
-        nt = nontrivial(cfg, items)
+        nt = (nontrivial_fn or nontrivial)(cfg, items)
         ctx.case(key_of(cfg, items), nontrivial=nt, sample={"cfg": cfg, "items": items[:8]})
         ctx.count("%s:%s:%s" % (label, cfg["kind"], cfg["transport"]))
         for it in items:
             ctx.count("item:" + it[0] + (":" + str(it[2]) if it[0] == "leave" else ""))
+        if res is not None and res.get("skipped"):
+            ctx.count("not-run:failure-already-established")
+            continue
         if res is None or "crash" in res:
             ctx.tie_broken("harness:history-crashed", "%r\n%s" % (case, (res or {}).get("crash")))
             continue
         for v in res["oracle"]:
             ctx.violation(v["sig"], case, observed=v["observed"], expected=v["expected"], what="%s (event %d of the history)" % (v["what"], v["item"]))
-        # replies of well-behaved requests against the reference semantics
+        # every well-behaved client is accepted and answered as its own endpoint would (the property's statement; no model involved)
         for j, rep in enumerate(res["replies"]):
+            if probe != "c16" or not well_behaved(cfg, items, j) or cfg["kind"] == "forking":
+                continue        # (C16's statement; C17's runs check C17's statement only)
+            if isinstance(rep, list) and rep and rep[0] == "connected" and not rep[1]:
+                cause = ":" + rep[2] if len(rep) > 2 and rep[2] else ""
+                ctx.violation("good-client-not-accepted:%s%s" % (cfg["kind"], cause), case,
+                              observed="no connection was set up" + (" (server thread stacks: %s)" % rep[2] if cause else " within %.0fs" % BOUND),
+                              expected="accepted", what="a running server does not accept a well-behaved client (event %d)" % j)
+                break
             if isinstance(rep, dict) and rep["got"] != rep["ref"]:
-                it = items[j]
-                served = mouts[i] is None or reply_expected(mouts[i], snaps[i], j, it) is not None
-                if served:
-                    what = "a well-behaved request was not answered as the connection's own endpoint would"
-                    kind = "unanswered" if rep["got"] in (["timeout"], ["eof"], "EOFError", "AsyncResultTimeout", "TimeoutError") else "wrong-answer"
-                    ctx.violation("good-client-%s:%s" % (kind, cfg["kind"]), case, observed=rep["got"], expected=rep["ref"], what="%s (event %d)" % (what, j))
+                unanswered = rep["got"] in (["timeout"], ["eof"], "EOFError", "AsyncResultTimeout", "TimeoutError")
+                if unanswered:
+                    cause = ":" + rep["cause"] if rep.get("cause") else ""
+                    ctx.violation("good-client-unanswered:%s%s" % (cfg["kind"], cause), case,
+                                  observed="%r%s" % (rep["got"], " (server thread stacks: %s)" % rep["cause"] if cause else " after %.0fs" % BOUND), expected=rep["ref"],
+                                  what="a well-behaved client's request is not answered (event %d)" % j)
+                else:
+                    ctx.violation("good-client-wrong-answer:%s" % cfg["kind"], case, observed=rep["got"], expected=rep["ref"],
+                                  what="a well-behaved client is not answered as its own endpoint would (event %d)" % j)
+                break
         if cfg["kind"] == "forking":
             continue
         if mouts[i] is None:
@@ -1537,6 +1872,8 @@ def evaluate(ctx, label, batch, model, facts, farm, probe=None):
             ctx.tie_broken("correspondence:server-state", "cfg %r items %r: event %d: %s" % (cfg, items, m["item"], m["diffs"]))
         # replies: model vs implementation
         for j, rep in enumerate(res["replies"]):
+            if j >= compared[i]:
+                break       # (schedule-dependent from here on, see above)
             if isinstance(rep, dict) and items[j][0] == "req":
                 want = reply_expected(mouts[i], snaps[i], j, items[j])
                 got = rep["got"]
@@ -1572,7 +1909,7 @@ def run(ctx):
     if model is None:
         ctx.tie_broken("runner:server", "extracted model not built")
     facts = gen_facts()
-    ctx.coverage_extra["facts"] = dict(zip(("pool_close_drops", "pool_fail_discards", "fork_parent_keeps"), facts))
+    ctx.coverage_extra["facts"] = dict(zip(("pool_close_drops", "pool_fail_discards", "fork_parent_keeps", "pool_catches_base"), facts))
     ctx.coverage_extra["rule"] = (
         "a case is one history against one real server: kind in threaded/pool/one-shot (uniform), TCP loopback (2/3) or unix socket, toy authenticator 30%, service "
         "registered as class 75% / instance, pool of 1-3 workers with batch 1/2/3/10; 3-11 (quick) / 3-21 events by up to 5 clients: connect (raw-protocol client or real "
